@@ -55,7 +55,12 @@ JudgeY(ev) ==
        IF ~d.ok THEN {}                                   \* (numerals of three or more characters: not evaluated)
        ELSE IF ~k.ok THEN {V("C02", "YescryptNoKdf")}
        ELSE (IF <<k.flags, k.N, k.r, k.p, k.t, k.g>> = <<d.flags, d.N, d.r, d.p, d.t, d.g>> THEN {} ELSE {V("C02", "YescryptParams")})
-            \cup (IF Y!Observed(ev.aux) = Y!Schedule(d) THEN {} ELSE {V("C02", "YescryptSchedule")})
+            \* (the recorder keeps the first 160 hook events of a call: with more lanes than that, the recorded
+            \* invocations must be the leading part of the schedule)
+            \cup (LET ob == Y!Observed(ev.aux)  sc == Y!Schedule(d) IN
+                  IF (IF "auxdrop" \in DOMAIN ev /\ ev.auxdrop > 0
+                      THEN Len(ob) <= Len(sc) /\ ob = SubSeq(sc, 1, Len(ob)) ELSE ob = sc)
+                  THEN {} ELSE {V("C02", "YescryptSchedule")})
             \cup (LET lastd == S!LastIndexOf(ev.s, 36, d.saltstart)
                        saltstr == SubSeq(ev.s, d.saltstart, IF lastd = 0 THEN Len(ev.s) ELSE lastd - 1) IN
                   IF o.m = "scrypt" THEN (IF k.salt = saltstr THEN {} ELSE {V("C02", "YescryptSalt")})
